@@ -174,7 +174,8 @@ class ConcatenatedOption(ConfigOption[Sequence[T]]):
         for instance in instances:
             if instance.is_applicable_to(module_path):
                 values += instance.value
-        values += cls.default_value
+        # The default is already among the instances: Options._get_value_for_no_default
+        # appends an instance holding cls.default_value.
         return values
 
 
